@@ -58,6 +58,10 @@ enum Edit {
     /// add a record of the same owner and type but another CLASS (0 CH, 1 HS, 2 unknown, 3 NONE)
     /// in front (bit 2) or behind, with new (0) or copied (bit 3) RDATA
     AddForeignClass(u8),
+    /// add a second RRSIG for the answer RRset that can never verify it — signer name of another
+    /// zone (bit 1 clear) or a garbage signature under the right signer (bit 1 set) — with a far
+    /// later expiration, in front of the genuine RRSIG (bit 0 clear) or behind it
+    AddForeignRrsig(u8),
 }
 
 #[derive(Serialize, Deserialize, Clone, Debug)]
@@ -102,7 +106,7 @@ fn queries() -> Vec<Query> {
 }
 
 fn gen_edit(r: &mut Rng) -> (usize, Edit) {
-    let e = match r.below(30) {
+    let e = match r.below(32) {
         0..=3 => Edit::BitFlip(r.next_u64() as u32),
         4 => Edit::TypeCovered,
         5 => Edit::Algorithm,
@@ -127,7 +131,8 @@ fn gen_edit(r: &mut Rng) -> (usize, Edit) {
         24 => Edit::SubstituteDnskey,
         25 => Edit::StripRrsigs,
         26 | 27 => Edit::ClassChange(r.below(3) as u8),
-        _ => Edit::AddForeignClass(r.below(16) as u8),
+        28 | 29 => Edit::AddForeignClass(r.below(16) as u8),
+        _ => Edit::AddForeignRrsig(r.below(4) as u8),
     };
     let target = match e {
         Edit::DnskeyZoneFlagOff | Edit::DnskeyRevoke | Edit::DnskeyKeyByte(_) | Edit::SubstituteDnskey => 1,
@@ -327,6 +332,29 @@ fn apply_edit(orig: &Message, e: Edit, other_key: &PublicKeyBuf) -> Option<Messa
                 m.answers.push(extra);
             }
         }
+        Edit::AddForeignRrsig(k) => {
+            let q = m.queries.first()?.clone();
+            let pos = m.answers.iter().position(|r| matches!(&r.data, RData::DNSSEC(DNSSECRData::RRSIG(s)) if s.input().type_covered == q.query_type))?;
+            let mut extra = m.answers[pos].clone();
+            if let RData::DNSSEC(DNSSECRData::RRSIG(s)) = &extra.data {
+                let mut i = s.input().clone();
+                i.sig_expiration = hickory_proto::rr::SerialNumber::new(i.sig_expiration.get().wrapping_add(400_000_000));
+                let mut sig = s.sig().to_vec();
+                if k & 2 == 0 {
+                    i.signer_name = Name::from_ascii("other.").ok()?;
+                } else {
+                    for b in sig.iter_mut() {
+                        *b ^= 0x5a;
+                    }
+                }
+                extra.data = RData::DNSSEC(DNSSECRData::RRSIG(RRSIG::from_sig(i, sig)));
+            }
+            if k & 1 == 0 {
+                m.answers.insert(pos, extra);
+            } else {
+                m.answers.insert(pos + 1, extra);
+            }
+        }
         Edit::StripRrsigs => {
             let before = m.answers.len();
             m.answers.retain(|r| r.record_type() != RecordType::RRSIG);
@@ -392,6 +420,20 @@ impl Part for C06Part {
         }
         if !steps.iter().any(|s| matches!(s, Step::Validate { .. })) {
             steps.push(Step::Validate { q: 0, edit: None });
+        }
+        // a persistent on-path edit: the same harmless-looking addition on every response of the
+        // history for one question, with the clock moved in between (what a cached verdict must survive)
+        if !fault_free && r.chance(1, 6) {
+            let q = r.usize_below(5);
+            let e = if r.chance(2, 3) { Edit::AddForeignRrsig(r.below(4) as u8) } else { Edit::AddForeignClass(r.below(16) as u8) };
+            let d = sig_duration_s;
+            steps = vec![
+                Step::Validate { q, edit: Some((0, e)) },
+                Step::Advance { secs: *r.pick(&[d / 2, d.saturating_sub(10).max(1), d + 1, d + 50]) },
+                Step::Validate { q, edit: Some((0, e)) },
+                Step::Advance { secs: *r.pick(&[1u64, d / 2 + 1, d]) },
+                Step::Validate { q, edit: Some((0, e)) },
+            ];
         }
         serde_json::to_value(Plan { sim, key, sig_duration_s, ttl, steps }).unwrap()
     }
@@ -494,6 +536,7 @@ fn edit_code(e: Edit) -> u64 {
         Edit::StripRrsigs => 23,
         Edit::ClassChange(_) => 24,
         Edit::AddForeignClass(_) => 25,
+        Edit::AddForeignRrsig(_) => 26,
     }
 }
 
